@@ -59,6 +59,10 @@ pub struct Oracle {
     cache: HashMap<(u64, usize, Cfg), Fmt>,
     pub calls: u64,
     pub panics: u64,
+    /// the library returned an error for a text the parser accepts (totality is C05's business:
+    /// counted and reported, never a verdict of C14-C16, whose model takes the refusal as
+    /// "erroneous")
+    pub refused_well_formed: u64,
 }
 
 impl Oracle {
@@ -75,6 +79,9 @@ impl Oracle {
         let r = fmt_uncached(text, cfg);
         if r == Fmt::Panic {
             self.panics += 1;
+        }
+        if r == Fmt::Erroneous && text.len() < 100_000 && !is_erroneous(text) {
+            self.refused_well_formed += 1;
         }
         if self.cache.len() > 20_000 {
             self.cache.clear();
